@@ -264,7 +264,10 @@ def check(ctx):
                dict(n_agents=0), dict(n_agents=-2), dict(n_agents=1.5), dict(n_agents='3'), dict(n_variables=0),
                dict(n_variables=2.0), dict(n_iterations=0), dict(n_iterations=-1), dict(n_iterations=None),
                dict(n_variables=2, lower_bound=[0], upper_bound=[1, 1]), dict(n_variables=2, lower_bound=[0, 0], upper_bound=[1]),
-               dict(n_variables=1, lower_bound=[0, 0], upper_bound=[1, 1]), dict(n_variables=3, lower_bound=[0, 0, 0], upper_bound=[1, 1, 1, 1])]
+               dict(n_variables=1, lower_bound=[0, 0], upper_bound=[1, 1]), dict(n_variables=3, lower_bound=[0, 0, 0], upper_bound=[1, 1, 1, 1]),
+               # nested lists whose *number of elements* equals n_variables while their length does not
+               dict(n_variables=2, lower_bound=[[0, 0]], upper_bound=[[1, 1]]), dict(n_variables=4, lower_bound=[[0, 0], [0, 0]], upper_bound=[[1, 1], [1, 1]]),
+               dict(n_variables=2, lower_bound=[[0, 0]], upper_bound=[1, 1]), dict(n_variables=3, lower_bound=[0, 0, 0], upper_bound=[[1, 1, 1]])]
         for kw in bad:
             for kind in ('search', 'hyper', 'tree'):
                 args = dict(n_variables=1, n_iterations=2, lower_bound=[0], upper_bound=[1])
